@@ -8,12 +8,17 @@
    the tokens that the tokenizer model reads from the sanitized BYTES are text tokens or tags
    naming an allowed element, never a comment or doctype (C01_output_tokens, from the round-trip
    theorem Proofs/SanRoundTrip.retokenize_sanitize).
-   Missing for the full statement: the same byte-level statement for policies that keep comments
-   or raw-text elements, and the tree-builder clause (x/net/html's parser in ten containers is not
+   For policies that keep comments: a kept comment is written as "<!--" escapeComment(data) "-->";
+   C01_comment_reread proves, for every comment data and every continuation, that the tokenizer
+   reads exactly one comment token from it (raw data = the escaped body) and resumes right after
+   "-->": comment data can neither end the comment early nor swallow the markup that follows
+   (Proofs/CommentRT.v: the escaped body has no ">" after the start, a "-" or a "!").
+   Missing for the full statement: the whole-document byte-level statement for policies that keep
+   comments (the single-token step is proved) or raw-text elements, and the tree-builder clause (x/net/html's parser in ten containers is not
    modelled); both are carried by the implementation-side oracle on every generated case. *)
 From Coq Require Import List NArith Bool.
 Import ListNotations.
-From BM Require Import Bytes Tokenizer Policy Loop LoopInv LoopProps SanRoundTrip TokenLevel.
+From BM Require Import Bytes Escape Tokenizer Policy Loop LoopInv LoopProps CommentRT SanRoundTrip TokenLevel.
 
 Section C01.
   Variables M U R : Type.
@@ -59,5 +64,11 @@ Section C01.
   Qed.
 End C01.
 
+(* a kept comment, as rendered, is re-read as one comment token and nothing of what follows is consumed *)
+Theorem C01_comment_reread : forall d rest,
+  next [] (render_item (IComment d) ++ rest) = Tok (RComment (escape_comment d)) [] rest.
+Proof. intros d rest. apply next_rendered_comment. Qed.
+
 Print Assumptions C01_items_partial.
+Print Assumptions C01_comment_reread.
 Print Assumptions C01_output_tokens.
